@@ -39,6 +39,7 @@ def setup():
         rc, out = sh('git -C /repo worktree add --detach %s HEAD' % WT)
         assert rc == 0, out
     sh('git checkout -q -- .', cwd=WT)
+    sh('git checkout -q --detach $(git -C /repo rev-parse HEAD)', cwd=WT)   # follow /repo's HEAD (repairs committed since the worktree was made)
     if not os.path.isdir(HN):
         os.makedirs(HN)
         shutil.copytree(os.path.join(ROOT, 'harness', 'src'), HN + '/src')
